@@ -31,6 +31,9 @@ def main(tier=None, replay=None):
     circuits = c01.make_circuits(ck, rnd, ck.pick(110, 1100))
     recs, meta = c01.records(ck, rnd, circuits, (4, 8))
     c01.judge(ck, recs, meta, (PID,))
+    # scale: more than 65 536 signals / memory locations in one simulator, judged chain by chain
+    crecs = [c01.chains_record(rnd.randrange(1 << 30), m, 34, 1000, lanes=rnd.choice([3, 5]), reuse=False, strip=False) for m in ((rnd.choice([4, 8]),) if not ck.thorough else (4, 8, 8))]
+    c01.judge_chains(ck, crecs, (PID,))
     fam = known = 0
     for rec in recs:
         st = rec['stim']
